@@ -68,7 +68,7 @@ class Gen:
             elif k < 22:
                 out.append(["ev", self.id()])
             elif k < 40:
-                out.append(["yield", r.weighted([(3, False), (5, True), (2, "vec")])])
+                out.append(["yield", r.weighted([(3, False), (5, True), (2, "vec"), (2, "nil")])])
             elif k < 48:
                 out.append(["helper", r.range(1, 3), self.id()])
             elif k < 62:
@@ -139,10 +139,10 @@ def render(ir):
 
     def call_block(ind, evid, me_expr, target_inbox):
         emit("{", ind)
-        emit('var t = print(("pick", %d)); var m = print(("pick", 4)); var v = print(("pick", 1000));' % nf, ind + 1)
+        emit('var t = print(("pick", %d)); var m = print(("pick", 5)); var v = print(("pick", 1000));' % nf, ind + 1)
         emit("try {", ind + 1)
         emit("var r = nil;", ind + 2)
-        emit("if m == 0 { r = fibers[t].call(); } else if m == 3 { r = fibers[t].call(v, v); } else if m == 2 { r = fibers[t].call([v]); } else { r = fibers[t].call(v); }", ind + 2)
+        emit("if m == 0 { r = fibers[t].call(); } else if m == 3 { r = fibers[t].call(v, v); } else if m == 4 { r = fibers[t].call(nil); } else if m == 2 { r = fibers[t].call([v]); } else { r = fibers[t].call(v); }", ind + 2)
         if target_inbox:
             emit("inbox = r;", ind + 2)
         emit("gtick = gtick + 1;", ind + 2)
@@ -163,7 +163,7 @@ def render(ir):
             elif k == "ev":
                 emit('print(("ev", %d, me, acc, inbox));' % st[1], ind)
             elif k == "yield":
-                emit("inbox = Fiber.yield([acc]);" if st[1] == "vec" else ("inbox = Fiber.yield(acc);" if st[1] else "inbox = Fiber.yield();"), ind)
+                emit("inbox = Fiber.yield([acc]);" if st[1] == "vec" else ("inbox = Fiber.yield(nil);" if st[1] == "nil" else ("inbox = Fiber.yield(acc);" if st[1] else "inbox = Fiber.yield();")), ind)
             elif k == "helper":
                 emit("inbox = %sh%d(me, acc);" % (hq, st[1]), ind)
                 emit("gtick = gtick + 1;", ind)
@@ -398,7 +398,7 @@ def model(ir, tape, faults, chooser=None):
         return (a * 31 + bb) % M
 
     def do_call(frm, t, m, v):
-        nargs = 0 if m == 0 else (2 if m == 3 else 1)
+        nargs = 0 if m == 0 else (2 if m == 3 else 1)      # m == 4: one argument, and it is nil
         f = ir["fibers"][t]
         if state[t] == "new":
             if nargs != f["param"]:
@@ -413,7 +413,9 @@ def model(ir, tape, faults, chooser=None):
         if state[t] == "active":
             probes.inc("illegal:reentry_self" if t == frm else "illegal:reentry_waiting")
             raise FErr(["RuntimeError", "TypeError"])
-        arg = (("vec", v) if m == 2 else v) if nargs == 1 else None
+        arg = (("vec", v) if m == 2 else (None if m == 4 else v)) if nargs == 1 else None
+        if m == 4:
+            probes.inc("transfer:call_with_explicit_nil")
         if m == 2:
             probes.inc("transfer:call_with_heap_value")
         depth[0] += 1
@@ -470,7 +472,7 @@ def model(ir, tape, faults, chooser=None):
             if pend[0] > 0:
                 taint.add("K-try-inside-pending-finally")       # the call block is a try/catch statement
             t = pick(nf, "target", me)
-            m = pick(4, "mode", t)
+            m = pick(5, "mode", t)
             v = pick(1000, "value")
             try:
                 r = do_call(me, t, m, v)
@@ -488,8 +490,9 @@ def model(ir, tape, faults, chooser=None):
                 elif k == "ev":
                     ev.append([num(st[1]), num(me), num(st8["acc"]), enc(st8["inbox"])])
                 elif k == "yield":
-                    probes.inc("transfer:yield_with_heap_value" if st[1] == "vec" else ("transfer:yield_with_value" if st[1] else "transfer:yield_without_value"))
-                    st8["inbox"] = yield (("vec", st8["acc"]) if st[1] == "vec" else (st8["acc"] if st[1] else None))
+                    probes.inc("transfer:yield_with_heap_value" if st[1] == "vec" else ("transfer:yield_with_explicit_nil" if st[1] == "nil" else (
+                        "transfer:yield_with_value" if st[1] else "transfer:yield_without_value")))
+                    st8["inbox"] = yield (("vec", st8["acc"]) if st[1] == "vec" else (None if st[1] == "nil" else (st8["acc"] if st[1] else None)))
                 elif k == "helper":
                     d = st[1]
                     locs = []
@@ -639,7 +642,7 @@ def model(ir, tape, faults, chooser=None):
             a = pick(12, "action")
             if a < 9:
                 t = pick(nf, "target", "drv")
-                m = pick(4, "mode", t)
+                m = pick(5, "mode", t)
                 v = pick(1000, "value")
                 try:
                     r = do_call("drv", t, m, v)
@@ -748,9 +751,9 @@ def make_tape(rng, ir, faults):
             t = info
             if rng.chance(p_legal_mode):
                 if state[t] == "new":
-                    return 0 if ir_["fibers"][t]["param"] == 0 else rng.choice([1, 2])
-                return rng.choice([0, 1, 2])
-            return rng.below(4)
+                    return 0 if ir_["fibers"][t]["param"] == 0 else rng.choice([1, 2, 4])
+                return rng.choice([0, 1, 2, 4])
+            return rng.below(5)
         return rng.below(m)
 
     tape = []
